@@ -16,6 +16,8 @@ from .externals import as_int_term
 
 def install(w):
     f = w.spec_funcs
+    from . import contract as _C
+    f.update(_C.SPECFNS)
 
     def implies(ex, fr, a, b):
         return VBool(z3.Implies(ex.truthy(a), ex.truthy(b)))
@@ -27,18 +29,16 @@ def install(w):
 
     def quant(which):
         def q(ex, fr, dom, fn):
-            i = ex.fresh("q", I)
             if isinstance(dom, VInt):
                 lo, hi = z3.IntVal(0), dom.t
             elif hasattr(dom, "ik") and dom.ik == "range":
                 lo, hi = dom.parts
             else:
                 raise Unsupported("quantifier domain %r" % (dom,))
-            body = ex.truthy(ex.call(fn, [VInt(i)], {}))
-            rng = z3.And(i >= lo, i < hi)
+            body = lambda i: ex.truthy(ex.call(fn, [VInt(i)], {}))
             if which == "forall":
-                return VBool(z3.ForAll([i], z3.Implies(rng, body)))
-            return VBool(z3.Exists([i], z3.And(rng, body)))
+                return VBool(ex.forall(lo, hi, body))
+            return VBool(ex.exists(lo, hi, body))
         return q
     f["forall"] = quant("forall")
     f["exists"] = quant("exists")
@@ -101,9 +101,7 @@ def install(w):
         if isinstance(a, VStr) and isinstance(b, VStr):
             return VBool(z3.PrefixOf(a.t, b.t))
         if isinstance(a, VSeq) and isinstance(b, VSeq):
-            i = ex.fresh("q", I)
-            return VBool(z3.And(a.n <= b.n, z3.ForAll([i], z3.Implies(z3.And(i >= 0, i < a.n),
-                                                                  z3.Select(a.arr, i) == z3.Select(b.arr, i)))))
+            return VBool(z3.And(a.n <= b.n, ex.forall(0, a.n, lambda i: z3.Select(a.arr, i) == z3.Select(b.arr, i))))
         raise Unsupported("is_prefix(%r, %r)" % (a, b))
     f["is_prefix"] = is_prefix
 
@@ -123,6 +121,26 @@ def install(w):
     def ite(ex, fr, c, a, b):
         return w.ext.ite(ex, ex.truthy(c), a, b)
     f["ite"] = ite
+
+    def truthy(ex, fr, x):
+        return VBool(ex.truthy(x))
+    f["truthy"] = truthy
+
+    def captured(ex, fr, fn, name):
+        """value of a variable captured by a closure (nested def) at the time it is returned"""
+        if not isinstance(fn, VFunc) or not hasattr(fn, "frame"):
+            raise Unsupported("captured() of %r" % (fn,))
+        nm = name.const()
+        if nm in fn.frame.env:
+            return fn.frame.env[nm]
+        if fn.frame.closure and nm in fn.frame.closure:
+            return fn.frame.closure[nm]
+        raise Unsupported("closure does not capture %s" % nm)
+    f["captured"] = captured
+
+    def is_closure(ex, fr, fn, name):
+        return VBool(isinstance(fn, VFunc) and fn.name == name.const() and hasattr(fn, "frame"))
+    f["is_closure"] = is_closure
 
     def fresh(ex, fr, x):
         """x was allocated by this call (not reachable from the pre-state)."""
